@@ -84,7 +84,7 @@ def table_case(draw):
             if short and ci >= ncols - implicit:
                 cells.append({"k": "text", "s": "", "justify": None, "overflow": None, "no_wrap": None})
                 continue
-            t = {"k": "text", "s": text(4), "justify": None, "overflow": None, "no_wrap": None}
+            t = {"k": "text", "s": text(4 if draw(st.integers(0, 4)) else 9), "justify": None, "overflow": None, "no_wrap": None}
             kind = draw(st.integers(0, 11))
             if kind == 0:
                 t = {"k": "panel", "child": t, "box": "SQUARE", "title": None, "title_align": "center", "expand": draw(st.booleans()), "padding": [0, 0], "width": None}
@@ -111,6 +111,7 @@ def table_case(draw):
         "row_styles": draw(st.sampled_from([None, None, ["dim", ""]])),
         "width_delta": draw(st.one_of(st.none(), st.none(), st.none(), st.integers(0, 30))), "min_width_delta": draw(st.one_of(st.none(), st.none(), st.none(), st.integers(-5, 30))),
         "title_justify": draw(st.sampled_from(["left", "center", "right"])),
+        "prelude": draw(st.sampled_from([0, 0, 1, 2])),
     }
     if node["title"]:
         node["title"] = "".join(narrow[-1 - i] for i in range(draw(st.integers(1, 5))))
@@ -205,8 +206,18 @@ class Tables(Part):
                 for ch in cell_text(c):
                     if not ch.isspace():
                         owner[ch] = (i, j)
-        t, twidth, tminw = build_table(n, W, smin, annotations=False)
         con = sut(Console, file=io.StringIO(), width=W, height=25, color_system="truecolor", force_terminal=True, legacy_windows=False, _environ={})
+        if n.get("prelude"):
+            # history: the same cells were shown before in a table whose columns do not fold (same widths, other overflow methods)
+            import copy as _copy
+
+            n0 = _copy.deepcopy(n)
+            for k, c in enumerate(n0["cols"]):
+                c["overflow"] = ["ellipsis", "crop"][(k + n["prelude"]) % 2]
+            t0, _, _ = build_table(n0, W, smin, annotations=False)
+            sut(lambda: list(con.render(t0, con.options)))
+            ctx.cls("shown-before-without-folding")
+        t, twidth, tminw = build_table(n, W, smin, annotations=False)
         body = "".join(s.text for s in sut(lambda: list(con.render(t, con.options))) if not s.is_control).split("\n")
         if body and body[-1] == "":
             body.pop()
